@@ -56,6 +56,22 @@ def strongly_convex(inst):
     return any(fr['k'] == 'L2sq' for fr in [inst['f'], inst['h']] + list(inst['gs']))
 
 
+def tight(M):
+    """L^T L (or L L^T) is a multiple of the identity: condition number 1 (exact on integer matrices)."""
+    M = np.asarray(M, dtype=float)
+    G = M.T.dot(M) if M.shape[0] >= M.shape[1] else M.dot(M.T)
+    return G[0, 0] > 0 and np.array_equal(G, G[0, 0] * np.eye(G.shape[0]))
+
+
+def well_conditioned(inst):
+    """The class on which 50 iterations must already reduce the KKT residual tenfold: a strongly convex term,
+    one operator with condition number 1, no under-relaxation."""
+    return strongly_convex(inst) and len(inst['Ls']) == 1 and tight(SL.mat(inst['Ls'][0])) and SL.qf(inst['th']) == 1.0
+
+
+MIN_KKT0 = 1e-3      # a start that is (numerically) optimal already is outside the scenario
+
+
 # ------------------------------------------------------------------ monotone quantities (numbers from the code)
 def quantity(kind, A, b, sol, x):
     """The quantity solver `kind` promises not to increase, evaluated at iterate x (float)."""
@@ -370,9 +386,9 @@ def replay_kkt(args):
     # ---- convergence towards optimality (relational): instances that have a solution
     if aux['kkt']:
         r0 = SL.kkt_residual(inst, SL.vec(inst['x0']))
-        if r0 > 0:
+        if r0 >= MIN_KKT0:
             for real in reals:
-                for Nn in ([50, 200] if strongly_convex(inst) else [200]):
+                for Nn in ([50, 200] if well_conditioned(inst) else [200]):
                     rr = SL.run_real(dict(inst, solver=real), 'rn', 'opt', [Nn], pass_state=False)
                     out['counts'].append(([real, inst['tag'], inst['tau'], inst['sig'], 'conv', Nn], True))
                     sg = sig_of(real, 'convergence', functional=fk)
@@ -519,14 +535,14 @@ def kkt_case(args):
         if strongly_convex(inst):
             r0 = SL.kkt_residual(inst, SL.vec(inst['x0']))
             rr = SL.run_real(dict(inst, solver=real), 'rn', 'opt', [200], pass_state=False)
-            if r0 > 0 and not rr['err']:
+            if r0 >= MIN_KKT0 and not rr['err']:
                 rN = SL.kkt_residual(inst, rr['x'])
                 a, b = SL.exact.quantise_pair(r0, rN, bits=20)
                 out['events'].append({'kind': 'conv', 'solver': real, 'r0': a, 'rN': b,
                                       'meta': dict(detail, N=200, kkt0=r0, kktN=rN,
                                                    sig=sig_of(real, 'convergence', functional=fk))})
             # the solver's own default step-size rule (pdhg_stepsize / douglas_rachford_pd_stepsize)
-            if real in ('pdhg', 'dr') and r0 > 0:
+            if real in ('pdhg', 'dr') and r0 >= MIN_KKT0:
                 rd = SL.run_real(inst, 'rn', 'opt', [200], pass_state=False, default_steps=True)
                 if rd['err']:
                     out['viol'].append((sig_of(real, 'raised', functional=fk, steps='default'), dict(detail, error=rd['err'])))
@@ -553,8 +569,9 @@ def run(ctx):
         'monotonicity on observed sequences: relative slack 2^-30 (~1e-9) and an absolute floor of 1e-10 x the initial value',
         'KKT residual = min over duals in dg(Lx) of dist(-grad h - L^T y, df(x)) + infeasibility, sub-differentials '
         'enlarged by 2^-5 (relative) around kinks so that the residual is continuous near a solution',
-        'convergence relation kkt_N <= kkt_0/10 for N = 200 on every instance that has a solution and for N = 50 '
-        'only on instances with a strongly convex term (well-conditioned); step sizes admissible by a root-free certificate',
+        'convergence relation kkt_N <= kkt_0/10 for N = 200 on every instance that has a solution and whose start is not '
+        'optimal already (kkt_0 >= 1e-3), and for N = 50 only on well-conditioned instances (a strongly convex term, one '
+        'operator with condition number 1, no under-relaxation); step sizes admissible by a root-free certificate',
         'the fixed-point law is exercised on real code from the state the API lets a caller set: x (and y, x_relax for '
         'pdhg); KKT pairs that need non-zero internal duals of admm / DR / forward-backward are checked on the model only',
         'Fejer monotonicity and agreement with textbook iterates are checked on the model; on real runs they are drift only',
